@@ -95,6 +95,7 @@ pub fn check_case(ctx: &mut Ctx, ps: &mut Parsers, case: &Case) {
         return;
     }
     ctx.count(if valid { "scalable_valid" } else { "scalable_invalid_but_present" });
+    ctx.count_n("ingredients_with_recipe_reference", rec.ingredients.iter().filter(|i| i.reference.is_some()).count() as u64);
     let cause = meta_cause(&rec.metadata);
     // 1. ScalableRecipe
     let res = crate::core::guarded(|| -> Result<(), (String, String)> {
@@ -275,6 +276,17 @@ pub fn run(ctx: &mut Ctx) {
                 let input = format!("---\n{f}\n---\n{body}\n");
                 check_case(ctx, &mut ps, &Case::new("front_matter", input, all, "bundled"));
                 ctx.count("inputs_front_matter");
+            }
+        }
+    }
+    // ingredients that reference other recipes by path (`./`, `../`, back slashes; empty, doubled and trailing segments)
+    if ctx.shard == 0 {
+        for name in ["./sauces/tomato", "./sauces//tomato", "./sauces/", "../a/../b/x", "./x", ".//", "./", "../", "./a b/c d", ".\\x\\y", "..\\x", "./é/漢 字", "./a/b/c/d/e/f", "./sauces/tomato.cook", "./.", "./.."] {
+            for tail in ["{}", "{1%cup}", "{=2}", "|t{1}", "{}(n)"] {
+                let input = format!("Pour the @{name}{tail} over the @pasta{{200%g}} and @&pasta{{1%kg}}.\n\nThen @@{name}{{}} again.\n");
+                check_case(ctx, &mut ps, &Case::new("recipe_reference", input, all, "bundled"));
+                check_case(ctx, &mut ps, &Case::new("recipe_reference", format!("@{name}{tail}"), 0, "empty"));
+                ctx.count("inputs_recipe_references");
             }
         }
     }
